@@ -1235,6 +1235,10 @@ var loopTargets = []*ltarget{
 		params: rankerParams, args: "ranker", state: []string{"mem", "w"},
 		calls: map[string]callSpec{"$.mergeArrays": {kind: "opt", tmpl: "mergeArrays ranker %1 %2 %3 mem w fuel", sets: []string{"mem", "w"}}},
 		slices: "Slice"},
+	{file: "LoopsSorter.lean", pkg: "agent", recv: "sorter_", name: "SortValues", lean: "sortValuesPublic",
+		params: rankerParams, args: "ranker", state: []string{"mem", "w"},
+		calls: map[string]callSpec{"$.sortValues": {kind: "opt", tmpl: "sortValues ranker %1 mem w fuel", sets: []string{"mem", "w"}}},
+		slices: "Slice", doc: "the exported method: nothing but the call of sortValues"},
 	{file: "LoopsSorter.lean", pkg: "agent", recv: "sorter_", name: "ReverseValues", lean: "reverseValues",
 		params: "", args: "", state: []string{"mem"}, calls: map[string]callSpec{}, slices: "Slice"},
 	{file: "LoopsSorter.lean", pkg: "agent", recv: "sorter_", name: "ShuffleValues", lean: "shuffleValues",
